@@ -14,11 +14,12 @@ use robopoker::gameplay::ply::Turn;
 
 const KINDS: [&str; 8] = ["card", "hand", "hole", "obs", "street", "abs", "action", "turn"];
 /// code points the malformed stream draws from (the model's std-function tables are validated on these)
-const ALPHABET: [u32; 44] = [
+const ALPHABET: [u32; 47] = [
     0x20, 0x09, 0x0A, 0x0D, 0xA0, 0x85, 0x2003, 0x3000, 0x200B, 0x00, // whitespace and look-alikes, NUL
     0x41, 0x61, 0x4B, 0x6B, 0x54, 0x74, 0x32, 0x39, 0x63, 0x64, 0x68, 0x73, 0x53, 0x43, // rank and suit letters
     0x7E, 0x3A, 0x2B, 0x2D, 0x30, 0x31, 0x66, 0x50, 0x58, 0x3F, // ~ : + - digits hex P X ?
     0xE9, 0x2663, 0x2660, 0x1F600, 0x0301, 0x17F, 0x212A, 0xFB00, 0x131, 0xDF, // 2-,3-,4-byte, combining, case-mapping oddities
+    0x1E97, 0xFB03, 0xFB04, // the other code points whose upper case starts with one of the letters the parsers match on (T, F)
 ];
 fn cps(s: &str) -> String {
     if s.is_empty() {
@@ -36,13 +37,14 @@ fn turn_s(t: &Turn) -> String {
 }
 fn parse(kind: &str, s: &str) -> String {
     let r: Option<Option<String>> = catch(|| match kind {
-        "card" => Card::try_from(s).ok().map(|c| u8::from(c).to_string()),
+        "card" => Card::try_from(s).ok().map(|c| format!("{} rt{}", u8::from(c), (Card::try_from(c.to_string().as_str()).ok() == Some(c)) as u8)),
         "hand" => Hand::try_from(s).ok().map(|h| u64::from(h).to_string()),
         "hole" => Hole::try_from(s).ok().map(|h| u64::from(Hand::from(h)).to_string()),
-        "obs" => Observation::try_from(s).ok().map(|o| format!("{}:{}", u64::from(*o.pocket()), u64::from(*o.public()))),
+        "obs" => Observation::try_from(s).ok().map(|o| format!("{}:{} rt{}", u64::from(*o.pocket()), u64::from(*o.public()), (Observation::try_from(o.to_string().as_str()).ok() == Some(o)) as u8)),
         "street" => Street::try_from(s).ok().map(|x| (x as isize).to_string()),
-        "abs" => Abstraction::try_from(s).ok().map(|a| u64::from(a).to_string()),
-        "action" => Action::try_from(s).ok().map(|a| act_tok(&a)),
+        // the value a parser returns must itself survive print -> parse (two values that print alike must be equal)
+        "abs" => Abstraction::try_from(s).ok().map(|a| format!("{} rt{}", u64::from(a), (Abstraction::try_from(a.to_string().as_str()).ok() == Some(a)) as u8)),
+        "action" => Action::try_from(s).ok().map(|a| format!("{} rt{}", act_tok(&a), (Action::try_from(a.to_string().as_str()).ok() == Some(a)) as u8)),
         "turn" => Turn::try_from(s).ok().map(|t| turn_s(&t)),
         _ => unreachable!(),
     });
@@ -110,7 +112,7 @@ pub fn run(o: &Opts, _deck: &str) -> String {
     let mut rng = Rng::new(o.seed, 16);
     // fixed corpus: empty, whitespace only, the recorded defects' witnesses
     for k in KINDS {
-        for s in ["", " ", "\t\n", "\u{a0}", "é", "\u{301}", "A\u{301}", "♠", "A♠", "a♣", "😀", "As Ks ~ As Qd Jh", "DEAL é", "DEAL", "CALL", "CALL x", "RAISE 32768", "RAISE -32769", "raıse 5", "P", "P-1", "ﬀ", "F::", "::", "P::+a", "P::-1", "T::10000000000000000", "AsAs", "As As", "2c2d ~ 2h2s3c3d3h3s"] {
+        for s in ["", " ", "\t\n", "\u{a0}", "é", "\u{301}", "A\u{301}", "♠", "A♠", "a♣", "😀", "As Ks ~ As Qd Jh", "DEAL é", "DEAL", "CALL", "CALL x", "RAISE 32768", "RAISE -32769", "raıse 5", "P", "P-1", "ﬀ", "F::", "::", "P::+a", "P::-1", "T::10000000000000000", "\u{1e97}", "\u{fb03}", "\u{fb04}::0", "\u{fb03}::1f", "AsAs", "As As", "2c2d ~ 2h2s3c3d3h3s"] {
             out.line(&line(k, s));
         }
     }
